@@ -30,3 +30,9 @@ func init() {
 	props["C14"] = std("non-trivial = execution with at least one reversed edge, or acyclic input with >= 3 edges")
 	props["C16"] = std("non-trivial = input with >= 3 nodes")
 }
+
+func init() {
+	p := propSpec{Mode: "mapctl", Validate: true, Assume: stdAssume, BudgetS: 20, QuickDeadS: 420, ThorDeadS: 3000,
+		Rule: "states = choice-point prefixes explored (one per execution); non-trivial = default execution that reaches at least one map range with >= 2 keys; transitions additionally count every alternative taken"}
+	props["C07"] = p
+}
